@@ -38,6 +38,32 @@ func (e *Engine) doCall(s *State, x ssa.CallInstruction) ([]*State, bool) {
 			fval := e.funcs[fv.I]
 			return e.callFunction(s, x, fval.fn, args, fval.bindings)
 		}
+		if fv.isOp("ite") {
+			// a choice of known function values: split
+			var out []*State
+			e.concretize(s, fv, func(st *State, f *Term) {
+				if st.dead {
+					return
+				}
+				if f.K == KFunc {
+					fval := e.funcs[f.I]
+					succ, cont := e.callFunction(st, x, fval.fn, args, fval.bindings)
+					if cont {
+						out = append(out, st)
+					} else {
+						out = append(out, succ...)
+					}
+					return
+				}
+				if f == Zero {
+					return
+				}
+				e.assumed["call of unknown function value at "+e.siteName("CALL", x, "")+": result havocked, no heap effect assumed"] = true
+				e.bindResult(st, x, e.havocResult(st, x, "dyn"))
+				out = append(out, st)
+			})
+			return out, false
+		}
 		// unknown function value
 		e.assumed["call of unknown function value at "+e.siteName("CALL", x, "")+": result havocked, no heap effect assumed"] = true
 		e.bindResult(s, x, e.havocResult(s, x, "dyn"))
@@ -362,6 +388,12 @@ func (e *Engine) appendOp(s *State, x ssa.CallInstruction, args []Value) {
 		return
 	}
 	elemKey := "elem(" + e.typeKey(st.Elem()) + ")"
+	if e.isRepoPtr(st.Elem()) && b[2].K == KInt {
+		for i := int64(0); i < b[2].I; i++ {
+			v := e.load(s, Place{Prefix: elemKey, Addr: []*Term{b[0], Add(b[1], Int(i))}}, st.Elem())
+			e.safe(s, x, "nilelem", Ne(v[0], Zero))
+		}
+	}
 	r := s.newAlloc(e.typeKey(st))
 	snap := s.heap.clone()
 	s.copies[r.I] = &arrCopy{heap: snap, arr: a[0], off: a[1], oldlen: a[2]}
@@ -398,7 +430,7 @@ func (e *Engine) nextVer() int {
 // noteWrite: FRAME obligation — in phase-B (generator) code every write must target an object
 // allocated by the activation under verification.
 func (e *Engine) noteWrite(s *State, in ssa.Instruction, pl Place) {
-	if !e.cfg.CheckFrame || !e.curPhaseB {
+	if !e.cfg.CheckFrame || !e.curFramed {
 		return
 	}
 	if len(pl.Addr) == 0 {
@@ -416,6 +448,11 @@ func (e *Engine) noteWrite(s *State, in ssa.Instruction, pl Place) {
 		name = ch + "/" + name
 	}
 	goal := freshCond(a)
+	for _, ex := range e.curExcept {
+		if ex.fam == "" || strings.HasPrefix(slotFamily(pl.Prefix), ex.fam) || strings.HasPrefix(pl.Prefix, ex.fam) {
+			goal = Or(goal, Eq(a, ex.ref))
+		}
+	}
 	e.oblige(s, "FRAME", name, "write target "+pl.Prefix+" must be fresh", in.Pos(), goal)
 }
 
@@ -434,9 +471,20 @@ func freshCond(a *Term) *Term {
 }
 
 func (e *Engine) afterLoad(s *State, pl Place, t types.Type, v Value) {
+	// wf.elems (global invariant): no nil pointer is ever stored into a slice of pointers to
+	// repository structs (obligation SAFE:...:nilelem at every append / element store), hence every
+	// element read back is non-nil.
+	if strings.HasPrefix(pl.Prefix, "elem(") && !strings.Contains(pl.Prefix, ").") && e.isRepoPtr(t) && len(pl.Addr) == 2 {
+		s.assume(Ne(v[0], Zero))
+	}
 	if e.curPhaseB {
 		e.assumeTypeInv(s, t, v, pl)
 	}
+}
+
+func (e *Engine) isRepoPtr(t types.Type) bool {
+	_, ok := t.Underlying().(*types.Pointer)
+	return ok && e.typeInRepo(t)
 }
 
 func (e *Engine) afterAssert(s *State, t types.Type, v Value) {
@@ -446,11 +494,18 @@ func (e *Engine) afterAssert(s *State, t types.Type, v Value) {
 }
 
 func (e *Engine) afterMapLoad(s *State, mt *types.Map, m *Term, k, v Value, has *Term) {
+	if e.isRepoPtr(mt.Elem()) {
+		// wf.elems for maps: checked at every MapUpdate (SAFE:...:nilelem)
+		s.assume(Implies(has, Ne(v[0], Zero)))
+	}
 	if e.curPhaseB {
 		// values of old maps satisfy their type invariants when present
 		sub := s.fork()
 		sub.assume(has)
 		before := len(sub.pc)
+		if _, ok := mt.Elem().Underlying().(*types.Pointer); ok && e.typeInRepo(mt.Elem()) && !isFreshRef(m) {
+			sub.assume(Ne(v[0], Zero))
+		}
 		e.assumeTypeInv(sub, mt.Elem(), v, Place{})
 		for _, c := range sub.pc[before:] {
 			s.assume(Implies(has, c))
